@@ -88,6 +88,19 @@ def run_case(c):
                 T(X.to_input(t, v, "py"), _buffer=b, _context=xo.ContextCpu())
             elif op["mode"] == "misuse_offset":
                 T(X.to_input(t, v, "py"), _offset=8)
+            elif op["mode"] == "misuse_construct_at":
+                # a construction that cannot be honoured, at an explicit offset the caller reserved himself
+                o = int(b.allocate(size)); b.update_from_buffer(o, bytes([0x5A]) * size)
+                st["spare"] = [o, size]
+                before = snap(b)
+                cexc = None
+                try:
+                    T(X.to_input(t, op["bad"], "py"), _buffer=b, _offset=o)
+                except BaseException as e:  # noqa
+                    cexc = e
+                st["realloc"] = [int(b.allocate(size)), size]      # the next request of the same size
+                if cexc is not None:
+                    raise cexc
             else:
                 sub_t, _ = None, None
                 top = obj if op.get("via", "handle") == "handle" else T._from_buffer(b, off)
@@ -111,7 +124,8 @@ def run_case(c):
             st["ok"] = False; st["exc"] = X.exc_class(e); st["msg"] = repr(e)[:200]
         after = snap(b)
         n = min(len(before), len(after))
-        st["outside_changed"] = [i for i in range(n) if before[i] != after[i] and not (off <= i < off + size)][:5]
+        sp = st.get("spare", [0, 0])
+        st["outside_changed"] = [i for i in range(n) if before[i] != after[i] and not (off <= i < off + size) and not (sp[0] <= i < sp[0] + sp[1])][:5]
         st["bytes"] = after[off:off + size]
         st["size_now"] = None
         try:
